@@ -9,7 +9,7 @@ import (
 // worker only builds the cases of its own shard.
 type Case struct {
 	Key   string
-	Space string                // pair | triple | ends | kw | comment | layout
+	Space string                   // pair | triple | ends | kw | comment | layout
 	Build func() (in, base *Input) // base: same lexemes in canonical spelling joined by single spaces (nil if none)
 }
 
@@ -272,4 +272,30 @@ func HostileBytes() []byte {
 	return []byte{0x00, 0x01, 0x08, 0x0b, 0x0c, 0x1b, 0x7f, 0x80, 0xa0, 0xc3, 0xe2, 0xf0, 0xff,
 		'\\', '^', '{', '}', '`', '\'', '"', '$', '#', '@', '!', '?', ':', '.', '|', '&', '~', '<', '>', '=', '-', '/', '*',
 		'e', 'E', '0', '_', 'x', '\r', '\n', ' '}
+}
+
+// Fragments is the alphabet of the "all short strings" space: quote characters, escape and
+// dollar characters, one letter / digit / exponent letter, every operator-forming character,
+// white space, non-ASCII letters and quotes, and two bytes that start no lexical element.
+func Fragments() []string {
+	return []string{"'", "\"", "`", "\\", "$", "$$", "a", "E", "1", ".", "e", "+", "-", "/", "*", "\n", " ", ";", "(", ",", ":", "@", "#", "?", "[",
+		"é", "“", "«", "<", ">", "=", "!", "~", "|", "&", "\xff", "\x00"}
+}
+
+// FragStrings enumerates all strings of 1..maxLen fragments (key = fragment indices).
+func FragStrings(maxLen int, yield func(key, text string, n int)) {
+	fr := Fragments()
+	var rec func(prefix, key string, depth int)
+	rec = func(prefix, key string, depth int) {
+		if depth > 0 {
+			yield(key, prefix, depth)
+		}
+		if depth == maxLen {
+			return
+		}
+		for i, f := range fr {
+			rec(prefix+f, fmt.Sprintf("%s%02d", key, i), depth+1)
+		}
+	}
+	rec("", "", 0)
 }
